@@ -100,6 +100,12 @@ def execute(sc):
     k = min(sc["tcoeff_index"], q)
     b = configs.build(cfg, with_ref=False)
     post, sol, ab, attempts = c13.get_posterior(sc, b)
+    if not all(onp.all(onp.isfinite(onp.asarray(x, dtype=float))) for x in tu.tree_leaves(post)):
+        # a posterior that is already non-finite (known root cause: a dynamically calibrated step whose residual is exactly
+        # zero, KF-C01/C02/C03-dynamic-zero-residual) says nothing about the losses; not decided here
+        return {"violations": [], "status": "inconclusive", "inconclusive": ["posterior_nonfinite"], "stats": {"attempts": attempts, "sim_time": 0.0},
+                "probes": {}, "faults": {}, "abstract": ab, "abstract_key": digest_of([ab, "nonfinite"]), "nontrivial": False,
+                "cell": configs.cell_of(cfg), "mode": "stepped", "digest": digest_of([ab, "nonfinite"]), "sample": {}}
     hm = float(onp.mean([s[-1] for s in sc["script"][:-1]]))
     S = compare.nordsieck_scales(q, d, hm)
     means_s, J_s, As_s, bs_s = c13.chain_joint(post, S, return_parts=True)
